@@ -61,6 +61,8 @@ def apply_op(sd, op, names):
         r = guarded(lambda: sorted(sd.node_successors(g("node"), compute=True)))
     elif k == "skip":
         r = guarded(sd.skip_to_minimal, g("node"))
+    elif k == "skipall":
+        r = guarded(lambda: [bool(sd.skip_to_minimal(i)) for i in list(sd.stub_ids())])
     elif k == "skiprem":
         r = guarded(sd.skip_remaining)
     elif k == "cands":
@@ -98,6 +100,9 @@ def apply_op(sd, op, names):
         r = guarded(sd.build)
     elif k == "summary":
         r = guarded(sd.summary)
+    elif k == "selfhang":
+        while True:
+            pass
     elif k == "nop":
         r = {"ret": None, "exc": None}
     else:
